@@ -1882,7 +1882,7 @@ func nlRunExtra(col *nlCol, seed int64, k int, can *canary) (clean bool) {
 		}
 		return true
 	}
-	// even k: concurrent Close of one conn
+	// even k: concurrent Close of one conn (and, first, a Read without deadline that a local Close has to release)
 	conn, err := net.Dial("unix", path)
 	if err != nil {
 		ln.Close()
@@ -1944,6 +1944,71 @@ func nlRunExtra(col *nlCol, seed int64, k int, can *canary) (clean bool) {
 	iters := 200
 	closers := 2 + rng.Intn(3)
 	var viol string
+	// "Close works as on a socket": a Read blocked on a conn (no deadline) returns when the same conn is closed locally
+	for _, side := range []string{"accepted", "dialing"} {
+		c, ok := open1()
+		if !ok {
+			break
+		}
+		var rc io.ReadCloser = c
+		var heldPeer net.Conn
+		if side == "dialing" {
+			st, err := cli.OpenStream()
+			if err != nil {
+				c.Close()
+				break
+			}
+			st.Write([]byte("x"))
+			c2, ok2 := func() (net.Conn, bool) {
+				ch := make(chan net.Conn, 1)
+				go func() { a, _ := ln.Accept(); ch <- a }()
+				select {
+				case a := <-ch:
+					return a, a != nil
+				case <-time.After(10 * time.Second):
+					return nil, false
+				}
+			}()
+			c.Close()
+			if !ok2 {
+				break
+			}
+			heldPeer = c2
+			rc = st
+		} else {
+			buf := make([]byte, 8)
+			c.Read(buf) // the two bytes written by open1
+		}
+		rdone := make(chan error, 1)
+		go func() {
+			buf := make([]byte, 64)
+			if side == "dialing" {
+				// nothing was ever sent towards the dialing end
+			}
+			_, err := rc.Read(buf)
+			rdone <- err
+		}()
+		time.Sleep(time.Duration(1+rng.Intn(5)) * time.Millisecond)
+		can.reset()
+		rc.Close()
+		select {
+		case err := <-rdone:
+			if err == nil {
+				viol = fmt.Sprintf("%s conn: a Read blocked without data returned nil after the conn was closed locally", side)
+			}
+		case <-time.After(5 * time.Second):
+			if can.healthy(300 * time.Millisecond) {
+				viol = fmt.Sprintf("%s conn: a Read without deadline is still blocked 5 s after the same conn was closed locally (peer and session alive)", side)
+			}
+		}
+		col.count("extra: blocked Read released by a local Close", 1)
+		if heldPeer != nil {
+			heldPeer.Close()
+		}
+		if viol != "" {
+			break
+		}
+	}
 	for i := 0; i < iters && viol == ""; i++ {
 		c, ok := open1()
 		if !ok {
